@@ -544,7 +544,9 @@ impl BDF {
                 }
             }
 
-            if direction * (x - xend) >= 0.0 {
+            // Finished: reached xend, or the remaining distance is below the step-size resolution
+            // (a further step would only trip the stagnation guard)
+            if direction * (x - xend) >= 0.0 || x + 0.1 * (xend - x) == x {
                 status = Status::Success;
                 break;
             }
